@@ -705,7 +705,15 @@ fn unit_with(w: WProg, r: &mut Rng, trunc_stride: usize, op_stride: u32, ctx: &m
                     if op_stride > 1 && k > 60 && k % op_stride != 0 && !seek_ops[dev].contains(&k) {
                         continue;
                     }
-                    for kind in [FaultKind::Err(((k + dev as u32) % 6) as u8), FaultKind::Eintr, FaultKind::ErrMoved(((k + dev as u32) % 6) as u8)] {
+                    let mut kinds = vec![FaultKind::Err(((k + dev as u32) % 6) as u8), FaultKind::Eintr, FaultKind::ErrMoved(((k + dev as u32) % 6) as u8)];
+                    // the other error kinds a source can report (world::err_kind): all of them on
+                    // every seek, one chosen by position on every other operation
+                    if seek_ops[dev].contains(&k) {
+                        kinds.extend((6..crate::world::N_ERR_KINDS).map(|c| if (c as u32 + k) % 3 == 0 { FaultKind::ErrMoved(c) } else { FaultKind::Err(c) }));
+                    } else {
+                        kinds.push(FaultKind::Err(6 + ((k * 5 + dev as u32 * 3) % (crate::world::N_ERR_KINDS as u32 - 6)) as u8));
+                    }
+                    for kind in kinds {
                         // a seek that moves and then fails: only where operation k is a seek
                         if matches!(kind, FaultKind::ErrMoved(_)) && !seek_ops[dev].contains(&k) {
                             continue;
